@@ -93,9 +93,6 @@ Definition cmp_eq (c : comparison) : bool := match c with Eq => true | _ => fals
 Definition opt_N_eqb (a b : option N) : bool :=
   match a, b with Some x, Some y => x =? y | None, None => true | _, _ => false end.
 
-Fixpoint find_row (id : uuid) (l : list row) : option row :=
-  match l with [] => None | x :: r => if bytes_eqb id (r_id x) then Some x else find_row id r end.
-
 (* the rows a shard holding [s] answers to a filter request before paging, in the order of its own sort
    (any order when there are no sort keys); None = the model cannot judge *)
 Definition shard_full (sc : schema) (r : request) (s : store) : option (list row) :=
@@ -157,13 +154,19 @@ Definition judge_search (sc : schema) (maxlimit : N) (closed : option N) (shs : 
             end
         end
       else
-        (* vector query: the shards' own full answers were recorded *)
+        (* vector query: the shards' own full answers were recorded.  Which of several points at the SAME
+           distance a shard returns is not determined (C04), so a row is compared with the reference store for
+           its document and with the shard answers for its distance / score / hybrid values *)
         let all := concat direct in
-        if negb (forallb (fun x => match find_row (r_id x) all with
-                                   | Some y => odoc_sim (r_doc x) (r_doc y) && opt_N_eqb (r_dist x) (r_dist y) &&
-                                               opt_N_eqb (r_score x) (r_score y) && (r_hybrid x =? r_hybrid y)
+        if negb (forallb (fun x => match st_get (r_id x) ref with
+                                   | Some d => match expect_doc r d with
+                                               | Some od => odoc_sim (r_doc x) od
+                                               | None => false
+                                               end
                                    | None => false
-                                   end) rows) then 105 else
+                                   end &&
+                                   existsb (fun y => opt_N_eqb (r_dist x) (r_dist y) && opt_N_eqb (r_score x) (r_score y) &&
+                                                     (r_hybrid x =? r_hybrid y)) all) rows) then 105 else
         if negb (length direct =? length shs)%nat then 291 else
         let total := N.min limit (sumN (map (fun a => page_count o' l' (N.of_nat (length a))) direct)) in
         if negb (N.of_nat (length rows) =? total) then 201 else
